@@ -267,6 +267,8 @@ fn raw_line(rng: &mut Rng, n_arrays: usize) -> String {
         0 | 1 => "pe = get_last_error".to_string(),
         2 | 3 => "pl = get_last_error_line".to_string(),
         4 | 5 => "ps = get_last_error_source".to_string(),
+        // (without an argument it only reports the mode, which must stay what it was)
+        6 if rng.chance(1, 4) => "pq = exit_on_error".to_string(),
         6 => format!("exit_on_error {}", rng.pick(&["true", "false", "false", "false", "FALSE", "No", "0", "False", "yes", "\"\""])),
         // (surplus arguments: the message is the first one)
         7 if rng.chance(1, 4) => format!("trigger_error {} surplus \"more words\"", msg),
